@@ -58,10 +58,29 @@ def run(tier):
     tstates, nrec = vlib.validate_records("RouteTrace", "RouteTrace.cfg", "route_trace.ndjson", lines, on_fail=on_fail)
     cov["samples"].append(json.loads(lines[0]))
 
+    # second sentence: non-collapsing valid polygons come back as exactly their routed boundary (SnapTrace C02_NonCollapsingExact)
+    import snapcheck
+    sd = vlib.seed()
+    plans = ([dict(gens="star,hole", variants="base", n=1200, W=8, nmax=10, bias=0.5, seed=sd)] if tier == "quick" else
+             [dict(gens="star,hole", variants="base", n=30000, W=8, nmax=12, bias=0.5, seed=sd),
+              dict(gens="star,hole,collapse", variants="base", n=20000, W=10, nmax=10, bias=0.7, seed=sd + 1)])
+    d2 = vlib.scratch("c02snap")
+    try:
+        slines = snapcheck.generate(drv, d2, plans)
+    finally:
+        vlib.rm(d2)
+    sres = snapcheck.validate(PROP, "SnapTrace_C02.cfg", slines, v, drv)
+    sst = snapcheck.summarize(sres["stats"])
+    if sst["noncollapsing"] < 100:
+        raise Broken("vacuous: only %d non-collapsing (record, level) pairs" % sst["noncollapsing"])
+    cov["polygon_records"] = len(slines)
+    cov["polygon_record_stats"] = sst
+    cov["samples"].append(json.loads(slines[0]))
+
     rc = v.finish()
     cov.update({
-        "states": r.distinct + r0.distinct + tstates, "transitions": r.generated + r0.generated,
-        "traces_validated_against_impl": summary["n"] + nrec,
+        "states": r.distinct + r0.distinct + tstates + sres["states"], "transitions": r.generated + r0.generated + sres["transitions"],
+        "traces_validated_against_impl": summary["n"] + nrec + len(slines),
         "vectors": len(r.vecs), "replays": summary["n"], "replay_mismatches": summary["bad"],
         "placements": summary["placements"], "vectors_with_endpoint_on_pixel_border": summary["endpoint_on_border"],
         "trace_records": nrec, "exhaustive": True,
@@ -82,5 +101,8 @@ def replay(path):
         for m in mism:
             print(json.dumps(m))
         return 1 if mism else 0
+    if o["kind"] == "snap-group":
+        import snapcheck
+        return snapcheck.replay_snap(path)
     print(json.dumps(o, indent=1))
     return 0
